@@ -73,13 +73,15 @@ def do_run(name, tier, props):
             pkg = "./" + os.path.dirname(f)
             race = ["-race"] if re.search(r"-race", open(os.path.join(d, "demonstration.md")).read() if os.path.exists(os.path.join(d, "demonstration.md")) else "") else []
             shutil.copy(src, os.path.join(scratch, f))
-            rc1, o1 = sh(["go", "test", "-vet=off", "-count=1", "-run", "TestSeededDemo", "-timeout", "300s"] + race + [pkg], cwd=scratch, timeout=900)
+            names = re.findall(r"^func (Test\w+)\(", open(src).read(), re.M)
+            runpat = "^(" + "|".join(names) + ")$" if names else "TestSeededDemo"
+            rc1, o1 = sh(["go", "test", "-vet=off", "-count=1", "-run", runpat, "-timeout", "300s"] + race + [pkg], cwd=scratch, timeout=900)
             os.remove(os.path.join(scratch, f))
             clean = tempfile.mkdtemp(prefix="vseedc-", dir=os.environ.get("TMPDIR", "/tmp"))
             try:
                 subprocess.check_call(["rsync", "-a", "--exclude", ".git", "/repo/", clean + "/"])
                 shutil.copy(src, os.path.join(clean, f))
-                rc0, o0 = sh(["go", "test", "-vet=off", "-count=1", "-run", "TestSeededDemo", "-timeout", "300s"] + race + [pkg], cwd=clean, timeout=900)
+                rc0, o0 = sh(["go", "test", "-vet=off", "-count=1", "-run", runpat, "-timeout", "300s"] + race + [pkg], cwd=clean, timeout=900)
             finally:
                 shutil.rmtree(clean, ignore_errors=True)
             demo[f] = {"fails_on_patched": rc1 != 0, "passes_on_repo": rc0 == 0}
